@@ -23,7 +23,13 @@ RULE = (
     "array comparison (device region, outside region, dispersive coefficients, history) after one apply_params; "
     "distinct = (device kind, tensor tier, transform chain, voxel class, history length, position of the device)"
 )
-REQUIRED_COUNTERS = ["comparisons", "device_cells_checked", "outside_cells_checked", "history_comparisons"]
+REQUIRED_COUNTERS = [
+    "comparisons",
+    "device_cells_checked",
+    "outside_cells_checked",
+    "history_comparisons",
+    "dispersive_comparisons_over_static_object_with_more_poles",
+]
 ASSUMPTIONS = [
     "the transform-chain output at voxel level is taken from the real device call (transforms are C19-C25)",
     "devices of one scene do not overlap each other",
@@ -188,6 +194,22 @@ def gen_scene(rng, first_kind, geom=None):
         mat = {"eps": eps}
         if rng.random() < 0.3:
             mat["sig_e"] = float(rng.uniform(1e3, 1e4))
+        force = i == 0 and devs[0]["kind"].startswith("disc") and rng.random() < 0.5
+        if force:
+            # a static 3-pole object exactly under the first (discrete) device
+            t, mat = 1, {"eps": float(rng.uniform(1.5, 6.0))}
+            g = {"lo": [max(0, x - 1) for x in devs[0]["lo"]], "hi": list(devs[0]["hi"])}
+        if t == 1 and (force or rng.random() < 0.4):
+            # static dispersive object under (or beside) the devices, with up to three poles: usually MORE poles than
+            # any device material has, so every pole slot of a device cell has to be rewritten by apply_params
+            npoles = 3 if force else int(rng.integers(1, 4))
+            poles = []
+            for _ in range(npoles):
+                if rng.random() < 0.4:
+                    poles.append({"kind": "drude", "wp": float(rng.uniform(0.5e15, 1.5e15)), "gamma": float(rng.uniform(0.5e14, 2e14))})
+                else:
+                    poles.append({"kind": "lorentz", "w0": float(rng.uniform(2e15, 4e15)), "gamma": float(rng.uniform(0.5e14, 3e14)), "deps": float(rng.uniform(0.3, 2.0))})
+            mat["dispersion"] = {"poles": poles}
         bg.append({"lo": list(g["lo"]), "hi": list(g["hi"]), "mat": mat, "order": i})
     return {"shape": shape, "devices": devs, "background": bg, "volume": {"eps": float(rng.choice([1.0, 1.44]))}}
 
@@ -320,6 +342,20 @@ def _judge(scene, rng, r, where):
     inside = np.zeros(shape, bool)
     for d in scene["devices"]:
         inside[tuple(slice(d["lo"][a], d["hi"][a]) for a in range(3))] = True
+    # does a device overlap a static dispersive object that has more poles than any of the device's own materials?
+    def _npoles(m):
+        return len((m.get("dispersion") or {}).get("poles", []))
+
+    stale_poles = []
+    for d in scene["devices"]:
+        own = max(_npoles(m) for m in d["materials"].values())
+        under = 0
+        for b in scene["background"]:
+            if all(b["lo"][a] < d["hi"][a] and d["lo"][a] < b["hi"][a] for a in range(3)):
+                under = max(under, _npoles(b["mat"]))
+        stale_poles.append(under > own)
+        if under > own:
+            r.branch("device_over_static_dispersive_object_with_more_poles:" + d["kind"])
     key = jax.random.PRNGKey(int(rng.integers(1 << 30)))
     needs_beta = any(d["kind"] == "cont_iso_tanh" for d in scene["devices"])
     hist_len = int(rng.integers(2, 6))
@@ -415,6 +451,8 @@ def _judge(scene, rng, r, where):
                     wantc = np.moveaxis(tab[idx], (-2, -1), (0, 1))
                     gotc = post[ck][(slice(None), slice(None)) + sl]
                     r.count("dispersive_comparisons")
+                    if stale_poles[i]:
+                        r.count("dispersive_comparisons_over_static_object_with_more_poles")
                     r.check_close(
                         ck,
                         gotc,
